@@ -98,7 +98,9 @@ def make_bc(g, setup, cvals=None):
         for hi, side in enumerate(U.SIDES[ax]):
             bf = getattr(bc, side)
             if ax == pax:
-                bf.periodic = True
+                # either face declares the axis periodic: both / low only / high only, chosen from the grid
+                if U.flag_mode(sum(g.dims), g.spec["org"], len(g.cls)) in ("both", ("lo", "hi")[hi]):
+                    bf.periodic = True
                 continue
             if setup == "noflux" or (setup == "mixed" and ax != 0):
                 continue
